@@ -36,11 +36,17 @@ def nilable : Ty → Bool
   | .ptr _ | .slice _ | .map _ _ | .chan _ _ | .func _ _ | .iface _ _ => true
   | _ => false
 
-/-- value range of an integer kind -/
-def inRange (k : Kind) (v : Int) : Bool :=
-  if k.isSigned then decide (-(2:Int) ^ (k.bits - 1) ≤ v ∧ v < 2 ^ (k.bits - 1))
-  else if k.isUnsigned then decide (0 ≤ v ∧ v < 2 ^ k.bits)
-  else false
+/-- value range of an integer kind (int, uint, uintptr: 64 bits) -/
+def inRange : Kind → Int → Bool
+  | .int8, v => decide (-128 ≤ v) && decide (v < 128)
+  | .int16, v => decide (-32768 ≤ v) && decide (v < 32768)
+  | .int32, v => decide (-2147483648 ≤ v) && decide (v < 2147483648)
+  | .int, v | .int64, v => decide (-9223372036854775808 ≤ v) && decide (v < 9223372036854775808)
+  | .uint8, v => decide (0 ≤ v) && decide (v < 256)
+  | .uint16, v => decide (0 ≤ v) && decide (v < 65536)
+  | .uint32, v => decide (0 ≤ v) && decide (v < 4294967296)
+  | .uint, v | .uint64, v | .uintptr, v => decide (0 ≤ v) && decide (v < 18446744073709551616)
+  | _, _ => false
 
 /-- Representability of a constant by a basic type -/
 def representableG (c : CVal) (b : Basic) : Bool :=
